@@ -1039,6 +1039,11 @@ func encodeTextSTL(i string) (o []byte) {
 		if v, ok := stlUnicodeMapping.GetInverse(string(c)); ok {
 			o = append(o, v.(byte))
 		} else if v, ok := stlUnicodeDiacritic.GetInverse(string(c)); ok {
+			// The diacritic comes before the letter it applies to, if any
+			if len(o) == 0 {
+				o = append(o, v.(byte))
+				continue
+			}
 			o = append(o[:len(o)-1], v.(byte), o[len(o)-1])
 		} else {
 			o = append(o, byte(c))
